@@ -723,7 +723,7 @@ pub fn execute_from(ctx: &mut Ctx, eq: &mut EqTable, start: &Start, snapshot: Op
             }
             if ctx.guided {
                 if let Some(k) = ctx.last_feature.take() {
-                    if !ctx.known_features.contains(&k) && ctx.run_features.insert(k) && candidates.len() < 6 && trace.len() <= 300 && !info.finished {
+                    if !ctx.known_features.contains(&k) && ctx.run_features.insert(k) && candidates.len() < 6 && trace.len() <= 300 && !info.finished && w.m.move_no < crate::scenario::EDGE_MOVE_NUMBER {
                         candidates.push((k, trace.clone(), w.clone(), ctx.last_feature_weight));
                     }
                 }
